@@ -403,7 +403,18 @@ def run_ref(binpath, jobs):
 
 def run_model(tag, cases):
     exprs = [g_case(c) for c in cases]
-    return coqtools.coq_eval(tag, IMPORTS, exprs, shard=max(4, len(exprs) // 6 + 1), timeout=1800)
+    # starting a coqc and loading the libraries costs more than 20 cases: few large shards in the quick tier
+    nshards = 6 if len(exprs) < 600 else 16
+    return coqtools.coq_eval(tag, IMPORTS, exprs, shard=max(4, len(exprs) // nshards + 1), timeout=3000)
+
+
+def all_sequences(alphabet, maxlen):
+    out = [[]]
+    frontier = [[]]
+    for _ in range(maxlen):
+        frontier = [s + [a] for s in frontier for a in alphabet]
+        out += frontier
+    return out
 
 
 def digest(s):
